@@ -3,10 +3,9 @@ CONSTANTS
   MaxEntry = 4
   BufSize = 12
   DepthLimit = 100
-  EmptyFileSeek = {"ioerr", "tooEarly"}
+  EmptyGuard = TRUE
   MaxLines = 4
   MinLen = 1
   MaxLen = 4
-  SkipEmpty = TRUE
 VIEW View
 PROPERTY Refines
